@@ -16,7 +16,7 @@ for d in sorted(glob.glob('/verif/seeded/*/')):
         if m.get('note'):
             res += ' — ' + m['note']
     origin = 'agent' if name.startswith('agent') else 'own'
-    rows.append(f"| `{name}` | {m['property']} | {origin} | {what[:230]} | {res} |")
+    rows.append(f"| `{name}` | {m['property']} | {origin} | {what[:230].replace('|', '/')} | {res} |")
 table = "| seeded change | property | by | needs, in order to manifest | result |\n|---|---|---|---|---|\n" + "\n".join(rows) + "\n"
 p = '/verif/DESIGN.md'
 s = open(p).read()
